@@ -53,3 +53,39 @@ Theorem C15_handover_fifo : forall s,
   l_unlockq s' = l_unlockq s /\ l_val s' = l_val s.
 Proof. exact dequeue_txs_spec. Qed.
 Print Assumptions C15_handover_fifo.
+
+(* ---- over whole histories ---- *)
+From Goat Require Import Proofs.LockingQueueHistory.
+(* EVERY operation of EVERY history moves the two queues in one of three ways only: a request list appends
+   entries under  block time + unlock duration  or  block time + exit duration; BeginBlocker moves exactly
+   the entries whose key is <= the block time to the hand-over queue; the hand-over step takes a prefix of at
+   most 16.  Nothing else touches them.  Hence an entry queued at time t under key k = t + duration leaves
+   the time-keyed queue only in a BeginBlocker whose block time is >= k: never before its delay has passed,
+   and once (it is deleted as it is released). *)
+Theorem C15_queue_evolution : forall s o,
+  let s' := fst (lk_step s o) in
+  match o with
+  | KBegin now _ _ _ _ =>
+      s' = s \/
+      (let ks := filter (fun k => k <=? now) (keys_sorted (l_unlockq s)) in
+       l_q_unlocks s' = l_q_unlocks s ++ flat_map (fun k => default [] (l_unlockq s !! k)) ks /\
+       l_unlockq s' = fold_left (fun m k => delete k m) ks (l_unlockq s) /\ Forall (fun k => k <= now) ks)
+  | KReq now _ _ => appended now (l_params s) (l_unlockq s) (l_unlockq s') /\ l_q_unlocks s' = l_q_unlocks s
+  | KEnd | KAccount _ => l_unlockq s' = l_unlockq s /\ l_q_unlocks s' = l_q_unlocks s
+  | KDequeue => l_unlockq s' = l_unlockq s /\ exists taken, l_q_unlocks s = taken ++ l_q_unlocks s' /\ (length taken <= N.to_nat c_MaxLockingTx)%nat
+  end.
+Proof. exact queue_evolution. Qed.
+Print Assumptions C15_queue_evolution.
+
+(* after the BeginBlocker of block time t every entry still queued has a key later than t, and the request
+   lists of that block keep it so (durations positive): nothing that is due stays behind, nothing is due early *)
+Theorem C15_nothing_due_stays : forall s now h lim votes evs s',
+  begin_block s now h lim votes evs = Ok s' -> keys_after now (l_unlockq s').
+Proof. exact begin_leaves_later_keys. Qed.
+Print Assumptions C15_nothing_due_stays.
+
+Theorem C15_requests_queue_later : forall s now h q s',
+  0 < lp_unlock_dur (l_params s) -> 0 < lp_exit_dur (l_params s) ->
+  process_requests s now h q = Ok s' -> keys_after now (l_unlockq s) -> keys_after now (l_unlockq s').
+Proof. exact requests_keep_later_keys. Qed.
+Print Assumptions C15_requests_queue_later.
